@@ -88,6 +88,13 @@ def judge(ctx, bins, cmds, tag):
             lambda e: e.get("ev") in ("bounds", "conv3") and (e.get("within_in") == 0 or e.get("t_ok") == 0))
         for (line, ev, info, _) in res.rejected:
             why = info.strip().strip('"')
+            if ev.get("ev") == "acc":
+                # accessors that bound nothing (clamp and is_within_bounds do not use them): their values are not part of
+                # the statement, a departure from the values of the pinned tree is a NOTE, never a violation
+                msg = "%s: %s; values %s" % (ev.get("t"), why, {k: dy_to_float(v) for k, v in ev.get("vals", {}).items()})
+                print("NOTE: outside C03's statement, an accessor that bounds nothing changed its value: " + msg)
+                ctx.cov.setdefault("notes_outside_the_statement", []).append(msg)
+                continue
             d = coords_of(ev, why)
             what = "%s %s: %s on input %s -> %s" % (ev.get("t"), ev.get("node") or (ev.get("from"), ev.get("to")), why,
                                                     [dy_to_float(x) for x in ev.get("in", [])],
